@@ -89,6 +89,9 @@ impl Quantizer {
     /// ```
     ///
     pub fn convert(&mut self, v_in: f32) -> Conversion {
+        // clamp up front, so that the hysteresis window and the search below see the same input
+        let v_in = v_in.max(0.0_f32).min(V_MAX);
+
         // return early if vin is within the window of the last coversion plus a little hysteresis
         // the cached note number spans all octaves, the scale is defined per pitch class
         if self.is_allowed((self.cached_conversion.note_num % 12).into()) {
@@ -100,8 +103,6 @@ impl Quantizer {
                 return self.cached_conversion;
             }
         }
-
-        let v_in = v_in.max(0.0_f32).min(V_MAX);
 
         self.cached_conversion.note_num = self.find_nearest_note(v_in);
         self.cached_conversion.stairstep = self.cached_conversion.note_num as f32 / 12.0_f32;
